@@ -15,7 +15,36 @@ Emitted into coq/gen/SlicersGen.v:
     receive stack from the top; the object counter is taken and incremented at OPEN; list/set bodies iterate the
     object; dict body = key then value with OrderedDictSlicer's sort-with-fallback; Copyable = 'copyable', type name,
     then attribute name / value pairs; set-vocab switches the table to {} at start and to the new one at finish.
-Everything that is not recognised raises Untranslatable."""
+Everything that is not recognised raises Untranslatable.
+
+Accepted alternative forms (each equivalent to the reference form for ALL inputs, no assumption on value types):
+  * RootUnslicer.open, the registry scan after the 'copyable' branch.  Reference form (A):
+        for reg in self.openRegistries:
+            opener = reg.get(opentype)
+            if opener is not None:
+                child = opener()
+                return child
+        raise Violation(..)
+    Also accepted (B):
+        opener = self.<H>(self.openRegistries, opentype)
+        if opener is not None:
+            child = opener()
+            return child
+        raise Violation(..)
+    where <H> is a method of RootUnslicer with parameters (self, p, q), no decorators, whose body (docstring aside) is exactly
+        for reg in p:
+            opener = reg.get(q)
+            if opener is not None:
+                return opener
+        return None
+    and which no class in slicers/root.py, broker.py or storage.py redefines.  Argument: H iterates p in order and performs
+    exactly the calls reg.get(q) up to and including the first whose result is not None, then returns that result (else
+    None) -- the same calls, in the same order, as the loop of (A) with p = self.openRegistries, q = opentype (both are
+    evaluated once, before the first reg.get, in either form; opentype is a local that nothing rebinds in between).
+    After H returns, (B) tests `opener is not None` on a local (an identity test: no user code runs) and then executes
+    the same `child = opener(); return child` that (A) executes at the hit, with nothing in between; without a hit both
+    reach the same raise.  Neither form depends on what the registries or factories are.
+    (translate/normalize.py cannot inline H because its `return` sits inside a loop.)"""
 import ast, importlib, sys
 from translate import pylite as P
 
@@ -112,6 +141,54 @@ def start_registers(rel, clsname):
                         raise P.Untranslatable("%s.start: unexpected setObject arguments %s" % (cls.name, ast.unparse(c)))
                 return len(calls) > 0
     return False
+
+
+def read_registry_scan():
+    """the statements of RootUnslicer.open after the 'copyable' branch: form (A) or form (B) of the module docstring"""
+    rootmod = P.load("slicers/root.py")
+    fn = P.find_def(rootmod, "RootUnslicer.open")
+    body = [st for st in fn.body if not (isinstance(st, ast.Expr) and isinstance(st.value, ast.Constant))]
+    idx = [i for i, st in enumerate(body) if isinstance(st, ast.If) and ast.unparse(st.test) == "opentype[0] == 'copyable'"]
+    if len(idx) != 1:
+        raise P.Untranslatable("RootUnslicer.open: expected exactly one `if opentype[0] == 'copyable':`")
+    for st in body[:idx[0]]:
+        if any(isinstance(n, ast.Name) and n.id == "opener" for n in ast.walk(st)):
+            raise P.Untranslatable("RootUnslicer.open: `opener` is used before the registry scan")
+    tail = [ast.unparse(st) for st in body[idx[0] + 1:]]
+    hit = "if opener is not None:\n    child = opener()\n    return child"
+    form_a = "for reg in self.openRegistries:\n    opener = reg.get(opentype)\n" + "\n".join("    " + l for l in hit.split("\n"))
+    if len(tail) == 2 and tail[0] == form_a and tail[1].startswith("raise Violation("):
+        return "A"
+    if len(tail) == 3 and tail[1] == hit and tail[2].startswith("raise Violation("):
+        st = body[idx[0] + 1]
+        if isinstance(st, ast.Assign) and len(st.targets) == 1 and ast.unparse(st.targets[0]) == "opener" \
+                and isinstance(st.value, ast.Call) and isinstance(st.value.func, ast.Attribute) \
+                and ast.unparse(st.value.func.value) == "self" and not st.value.keywords \
+                and [ast.unparse(a) for a in st.value.args] == ["self.openRegistries", "opentype"]:
+            hname = st.value.func.attr
+            cls = P.find_class(rootmod, "RootUnslicer")
+            defs = [d for d in cls.body if isinstance(d, ast.FunctionDef) and d.name == hname]
+            if len(defs) != 1 or defs[0].decorator_list:
+                raise P.Untranslatable("RootUnslicer.%s: not defined exactly once / decorated" % hname)
+            h = defs[0]
+            a = h.args
+            if len(a.args) != 3 or a.vararg or a.kwarg or a.kwonlyargs or a.defaults or a.args[0].arg != "self":
+                raise P.Untranslatable("RootUnslicer.%s: unexpected parameters" % hname)
+            p_, q_ = a.args[1].arg, a.args[2].arg
+            hb = [ast.unparse(x) for x in h.body if not (isinstance(x, ast.Expr) and isinstance(x.value, ast.Constant))]
+            want = ["for reg in %s:\n    opener = reg.get(%s)\n    if opener is not None:\n        return opener" % (p_, q_), "return None"]
+            if hb != want or len({p_, q_, "reg", "opener", "self"}) != 5:
+                raise P.Untranslatable("RootUnslicer.%s is not a first-hit registry scan:\n%s" % (hname, "\n".join(hb)))
+            for rel in ("slicers/root.py", "broker.py", "storage.py"):
+                for c in [x for x in P.load(rel).body if isinstance(x, ast.ClassDef)]:
+                    if c is cls:
+                        continue
+                    for d in ast.walk(c):
+                        if isinstance(d, ast.FunctionDef) and d.name == hname or \
+                                isinstance(d, ast.Attribute) and d.attr == hname and isinstance(d.ctx, ast.Store):
+                            raise P.Untranslatable("%s is redefined in %s (%s)" % (hname, rel, c.name))
+            return "B"
+    raise P.Untranslatable("RootUnslicer.open: the registry scan after the 'copyable' branch has an unknown form:\n" + "\n".join(tail))
 
 
 def generate():
@@ -223,8 +300,8 @@ def generate():
     # RootUnslicer.open: ('copyable',) waits for the class name, ('copyable', name) -> CopyableRegistry[name]
     ro = ast.unparse(P.find_def(P.load("slicers/root.py"), "RootUnslicer.open"))
     require(ro, ["if opentype[0] == 'copyable':", "if len(opentype) > 1:", "copyablename = opentype[1]",
-                 "factory = copyable.CopyableRegistry[copyablename]", "return None",
-                 "for reg in self.openRegistries:", "opener = reg.get(opentype)"], "RootUnslicer.open")
+                 "factory = copyable.CopyableRegistry[copyablename]", "return None"], "RootUnslicer.open")
+    read_registry_scan()
 
     # index-token size limits: the class name after OPEN copyable is bounded by the registered names, not by the
     # longest opentype string (storage root and PB root alike)
